@@ -26,11 +26,7 @@ Variable V : list N.
 Definition holds (s : state) (v : N) (K : list entry) : Prop :=
   prefix K (firstn (flushed (st s v)) (log (st s v))).
 
-Definition ackd (s : state) (tc v : N) (k : nat) : Prop :=
-  exists i, In (tc, v, i) (acked s) /\ (k <= i)%nat.
-
-Definition chosen (s : state) (tc : N) (k : nat) : Prop :=
-  exists Q, majority V Q /\ forall v, In v Q -> ackd s tc v k.
+Notation chosen := (Raft.chosen V).
 
 Definition choosable (s : state) (tc : N) (k : nat) : Prop :=
   exists Q, majority V Q /\ forall v, In v Q -> ackd s tc v k \/ cur (st s v) <= tc.
@@ -505,19 +501,20 @@ Qed.
 
 (* ---- Crash ---- *)
 
-Lemma sinv_crash s n : sinv s -> linv s -> sinv (do_crash n s).
+Lemma sinv_crash s n c :
+  sinv s -> linv s -> (c <= commit (st s n))%nat -> sinv (do_crash n c s).
 Proof.
-  intros Hs Hl.
+  intros Hs Hl Hc.
   pose proof Hs as [Hat Hal Ham Hmi Hack Hvote Hsafe Hldc Hmsgc Hcom Hnc Hcf].
-  assert (Hanti : forall tc k0, choosable (do_crash n s) tc k0 -> choosable s tc k0).
+  assert (Hanti : forall tc k0, choosable (do_crash n c s) tc k0 -> choosable s tc k0).
   { intros tc k0. apply choosable_anti; unfold do_crash; simpl.
     - intros v0. upd_case v0 n; simpl; lia.
     - intros t0 v0 i Hin. left. exact Hin. }
-  assert (Hcho : forall tc k0, chosen s tc k0 -> chosen (do_crash n s) tc k0).
+  assert (Hcho : forall tc k0, chosen s tc k0 -> chosen (do_crash n c s) tc k0).
   { intros tc k0. apply chosen_mono. apply incl_refl. }
-  assert (Hlp : forall t0 X, lpre s t0 X -> lpre (do_crash n s) t0 X).
+  assert (Hlp : forall t0 X, lpre s t0 X -> lpre (do_crash n c s) t0 X).
   { intros t0 X. apply lpre_mono; apply incl_refl. }
-  assert (Hholds : forall v0 K, holds s v0 K -> holds (do_crash n s) v0 K).
+  assert (Hholds : forall v0 K, holds s v0 K -> holds (do_crash n c s) v0 K).
   { intros v0 K. unfold holds, do_crash; simpl. upd_case v0 n; simpl; auto.
     rewrite firstn_firstn, Nat.min_id. auto. }
   constructor; unfold do_crash; simpl.
@@ -536,8 +533,11 @@ Proof.
     + intros K HK HT Hlen. apply Hcho. exact (H3 K HK HT Hlen).
   - intros tc i e Hin. destruct (Hcom _ _ _ Hin) as [K (H1 & H2 & H3 & H4 & H5)].
     exists K. repeat split; auto.
-  - intros n0 i e. upd_case n0 n; simpl; [lia | apply Hnc].
-  - intros n0. upd_case n0 n; simpl; [lia | apply Hcf].
+  - intros n0 i e. upd_case n0 n; simpl; [|apply Hnc].
+    intros H1 H2. pose proof (Hcf n) as Hc1. rewrite nth_error_firstn in H2.
+    destruct (Nat.ltb_spec (i - 1) (flushed (st s n))) as [_|Hbad]; [|lia].
+    apply Hnc; [lia | exact H2].
+  - intros n0. upd_case n0 n; simpl; [|apply Hcf]. pose proof (Hcf n). lia.
 Qed.
 
 (* ---- RecvAppend ---- *)
@@ -807,6 +807,189 @@ Proof.
       rewrite E. destruct (changed_of (log (st s f)) m); [exact Hcoldlen | apply Hcf].
 Qed.
 
+(* ---- Install ---- *)
+
+Lemma prefixb_false X Y : prefixb X Y = false -> ~ prefix X Y.
+Proof. intros E H. apply prefixb_true in H. congruence. Qed.
+
+(* two choosable created logs are comparable (in particular a choosable one and a chosen one) *)
+Lemma choosable_comparable s K1 K2 :
+  linv s -> vinv V s -> sinv s -> In K1 (created s) -> In K2 (created s) ->
+  choosable s (lastTerm K1) (length K1) -> choosable s (lastTerm K2) (length K2) ->
+  comparable K1 K2.
+Proof.
+  intros Hl Hv Hs H1 H2 Hc1 Hc2.
+  destruct (N.le_gt_cases (lastTerm K1) (lastTerm K2)) as [Hle|Hgt].
+  - destruct (l_el _ Hl _ H2) as [n [L HL]].
+    exact (recv_comparable s (lastTerm K2) n L K2 (lastTerm K1) K1 Hl Hv Hs HL
+             (lpre_created _ _ H2) H1 eq_refl Hle Hc1).
+  - assert (Hle : lastTerm K2 <= lastTerm K1) by lia.
+    apply comparable_sym. destruct (l_el _ Hl _ H1) as [n [L HL]].
+    exact (recv_comparable s (lastTerm K1) n L K1 (lastTerm K2) K2 Hl Hv Hs HL
+             (lpre_created _ _ H1) H2 eq_refl Hle Hc2).
+Qed.
+
+(* the committed prefix of f survives the installation of a snapshot *)
+Lemma install_keeps_commit s f K K2 :
+  sinv s -> vinv V s -> linv s -> In K2 (created s) -> prefix K K2 ->
+  chosen s (lastTerm K2) (length K2) ->
+  prefix (firstn (commit (st s f)) (log (st s f)))
+         (if prefixb K (log (st s f)) then log (st s f) else K).
+Proof.
+  intros Hs Hv Hl HK2 HKK2 Hch2.
+  pose proof Hs as [Hat Hal Ham Hmi Hack Hvote Hsafe Hldc Hmsgc Hcom Hnc Hcf].
+  destruct (prefixb K (log (st s f))) eqn:Esame; [apply firstn_prefix|].
+  pose proof (prefixb_false _ _ Esame) as Hnp.
+  pose proof (Hcf f) as Hc1. pose proof (l_fl _ Hl f) as Hc2.
+  destruct (commit (st s f)) as [|j] eqn:Ec; [apply prefix_nil|].
+  destruct (nth_error (log (st s f)) j) as [e|] eqn:Ee; [|apply nth_error_None in Ee; lia].
+  destruct (Hnc f (S j) e) as [tc [Htc Hco]];
+    [lia | simpl; rewrite Nat.sub_0_r; exact Ee |].
+  destruct (Hcom _ _ _ Hco) as [Kc (HKc & HT & _ & HKe & Hchosen)].
+  simpl in HKe. rewrite Nat.sub_0_r in HKe.
+  assert (HlenK : (j < length Kc)%nat) by (apply nth_error_Some; congruence).
+  assert (Hf : firstn (S j) (log (st s f)) = firstn (S j) Kc).
+  { apply (wf_match (created s)); try lia.
+    - exact (l_keyed _ Hl).
+    - exact (l_wfn _ Hl f).
+    - exact (wf_created _ _ (l_closed _ Hl) HKc).
+    - simpl. rewrite Ee, HKe. reflexivity. }
+  assert (Hcmp : comparable Kc K2).
+  { apply (choosable_comparable s); try assumption.
+    - rewrite HT. apply chosen_choosable. exact Hchosen.
+    - apply chosen_choosable. exact Hch2. }
+  apply (change_keeps _ (log (st s f)) Kc K);
+    [apply firstn_prefix | rewrite Hf; apply firstn_prefix | | exact Hnp].
+  destruct Hcmp as [H|H].
+  - exact (prefix_comparable _ _ _ H HKK2).
+  - right. exact (prefix_trans _ _ _ HKK2 H).
+Qed.
+
+Lemma sinv_install s f t l K K2 L0 c :
+  sinv s -> vinv V s -> linv s ->
+  cur (st s f) <= t -> In (t, l, L0) (elected s) -> lpre s t K ->
+  In K2 (created s) -> prefix K K2 -> lastTerm K2 <= t ->
+  chosen s (lastTerm K2) (length K2) ->
+  (commit (st s f) <= c <= Nat.max (commit (st s f)) (length K))%nat ->
+  sinv (do_install f t l K K2 c s).
+Proof.
+  intros Hs Hv Hl Hterm HL0 HKt HK2 HKK2 Hlt Hch2 Hcc.
+  pose proof Hs as [Hat Hal Ham Hmi Hack Hvote Hsafe Hldc Hmsgc Hcom Hnc Hcf].
+  assert (Hanti : forall tc k0, choosable (do_install f t l K K2 c s) tc k0 -> choosable s tc k0).
+  { intros tc k0. apply choosable_anti; unfold do_install; simpl.
+    - intros v0. upd_case v0 f; simpl; lia.
+    - intros t0 v0 i [Heq|Hin0]; [right; injection Heq as E1 E2 E3; subst t0 v0 i; exact Hterm | left; exact Hin0]. }
+  assert (Hcho : forall tc k0, chosen s tc k0 -> chosen (do_install f t l K K2 c s) tc k0).
+  { intros tc k0. apply chosen_mono. unfold do_install; simpl. apply incl_tl, incl_refl. }
+  assert (Hlp : forall t0 Y, lpre s t0 Y -> lpre (do_install f t l K K2 c s) t0 Y).
+  { intros t0 Y. apply lpre_mono; apply incl_refl. }
+  (* K is a durable prefix of the new log *)
+  assert (HKnew : prefix K (firstn (if prefixb K (log (st s f))
+                                    then Nat.max (flushed (st s f)) (length K) else length K)
+                                   (if prefixb K (log (st s f)) then log (st s f) else K))).
+  { destruct (prefixb K (log (st s f))) eqn:E.
+    - apply prefix_firstn_of; [apply prefixb_true; exact E | lia].
+    - rewrite firstn_all. apply prefix_refl. }
+  assert (HKnl : prefix K (if prefixb K (log (st s f)) then log (st s f) else K))
+    by exact (prefix_trans _ _ _ HKnew (firstn_prefix _ _)).
+  (* a choosable prefix durably held by f stays so *)
+  assert (Hdur : forall K', In K' (created s) -> choosable s (lastTerm K') (length K') ->
+            holds s f K' ->
+            prefix K' (firstn (if prefixb K (log (st s f))
+                               then Nat.max (flushed (st s f)) (length K) else length K)
+                              (if prefixb K (log (st s f)) then log (st s f) else K))).
+  { intros K' HK' Hch' Hh. unfold holds in Hh. destruct (prefixb K (log (st s f))) eqn:E.
+    - exact (prefix_trans _ _ _ Hh (prefix_firstn_le _ _ _ (Nat.le_max_l _ _))).
+    - rewrite firstn_all. pose proof (prefix_trans _ _ _ Hh (firstn_prefix _ _)) as Hp.
+      assert (Hcmp : comparable K' K2).
+      { apply (choosable_comparable s); try assumption. apply chosen_choosable. exact Hch2. }
+      destruct Hcmp as [H|H].
+      + destruct (prefix_comparable _ _ _ H HKK2) as [H'|H']; [exact H'|].
+        exfalso. apply (prefixb_false _ _ E). exact (prefix_trans _ _ _ H' Hp).
+      + exfalso. apply (prefixb_false _ _ E). exact (prefix_trans _ _ _ (prefix_trans _ _ _ HKK2 H) Hp). }
+  (* what is acknowledged now is durably held *)
+  assert (Hnewack : forall K', In K' (created s) -> lastTerm K' = t -> (length K' <= length K)%nat ->
+            prefix K' (firstn (if prefixb K (log (st s f))
+                               then Nat.max (flushed (st s f)) (length K) else length K)
+                              (if prefixb K (log (st s f)) then log (st s f) else K))).
+  { intros K' HK' HT Hlen. apply (prefix_trans _ K); [|exact HKnew].
+    apply comparable_length; [|exact Hlen]. apply (lpre_comparable V s t); auto.
+    rewrite <- HT. apply lpre_created. exact HK'. }
+  (* the committed prefix of f survives *)
+  pose proof (install_keeps_commit s f K K2 Hs Hv Hl HK2 HKK2 Hch2) as Hckeep.
+  assert (Hcold : forall i, (1 <= i <= commit (st s f))%nat ->
+            nth_error (if prefixb K (log (st s f)) then log (st s f) else K) (i - 1)
+            = nth_error (log (st s f)) (i - 1)).
+  { intros i Hi. pose proof (Hcf f) as Hc1. pose proof (l_fl _ Hl f) as Hc2.
+    pose proof (prefix_firstn_eq _ _ Hckeep) as E. rewrite firstn_length_le in E by lia.
+    assert (E1 : nth_error (firstn (commit (st s f))
+                              (if prefixb K (log (st s f)) then log (st s f) else K)) (i - 1)
+                 = nth_error (firstn (commit (st s f)) (log (st s f))) (i - 1)) by (rewrite E; reflexivity).
+    rewrite !nth_error_firstn in E1.
+    destruct (Nat.ltb_spec (i - 1) (commit (st s f))); [exact E1 | lia]. }
+  assert (Hcoldlen : (commit (st s f) <=
+                        length (if prefixb K (log (st s f)) then log (st s f) else K))%nat).
+  { pose proof (Hcf f) as Hc1. pose proof (l_fl _ Hl f) as Hc2.
+    pose proof (prefix_length _ _ Hckeep) as E. rewrite firstn_length_le in E by lia. exact E. }
+  constructor; unfold do_install; simpl.
+  - (* s_at *)
+    intros tc v0 i [Heq|Hin0].
+    + injection Heq as E1 E2 E3. subst tc v0 i. rewrite upd_eq. simpl. lia.
+    + pose proof (Hat _ _ _ Hin0). upd_case v0 f; simpl; lia.
+  - (* s_al *)
+    intros tc v0 i [Heq|Hin0].
+    + injection Heq as E1 E2 E3. subst tc v0 i. exists K. split; [exact (Hlp _ _ HKt) | reflexivity].
+    + destruct (Hal _ _ _ Hin0) as [Y [H1 H2]]. exists Y. split; [exact (Hlp _ _ H1) | exact H2].
+  - (* s_am *)
+    intros a [<-|Hin0]; [left; reflexivity | right; exact (Ham _ Hin0)].
+  - (* s_mi *)
+    intros l0 v0 j. upd_case l0 f; simpl; [intro H; discriminate H|].
+    intros Hr Hj. right. exact (Hmi _ _ _ Hr Hj).
+  - (* s_ack *)
+    intros tc v0 i K' [Heq|Hin0] HK' HT Hlen Hch.
+    + injection Heq as E1 E2 E3. subst tc v0 i.
+      unfold holds. simpl. rewrite upd_eq. simpl. exact (Hnewack K' HK' HT Hlen).
+    + pose proof (Hack _ _ _ _ Hin0 HK' HT Hlen (Hanti _ _ Hch)) as Hh.
+      unfold holds. simpl. upd_case v0 f; simpl; [|exact Hh].
+      apply (Hdur K' HK'); [rewrite HT; exact (Hanti _ _ Hch) | exact Hh].
+  - (* s_vote *)
+    intros u v0 c0 L1 tc i K' Hvo Hsta0 [Heq|Hin0] Hlt' HK' HT Hlen Hch.
+    + injection Heq as E1 E2 E3. subst tc v0 i. destruct (va _ _ Hv _ _ _ Hvo) as [_ [H _]]. lia.
+    + exact (Hvote _ _ _ _ _ _ _ Hvo Hsta0 Hin0 Hlt' HK' HT Hlen (Hanti _ _ Hch)).
+  - (* s_safe *)
+    intros u n0 L1 tc K' H1 H2 H3 H4 Hch. exact (Hsafe _ _ _ _ _ H1 H2 H3 H4 (Hanti _ _ Hch)).
+  - (* s_ldc *)
+    intros l0 K'. upd_case l0 f; simpl; [intro H; discriminate H|].
+    intros Hr HK' HT Hlen. apply Hcho. exact (Hldc _ _ Hr HK' HT Hlen).
+  - (* s_msgc *)
+    intros m0 Hin0. destruct (Hmsgc m0 Hin0) as [[Xc [H1 H2]] H3]. split.
+    + exists Xc. split; [exact (Hlp _ _ H1) | exact H2].
+    + intros K' HK' HT Hlen. apply Hcho. exact (H3 K' HK' HT Hlen).
+  - (* s_com *)
+    intros tc i e Hin0. apply in_app_or in Hin0. destruct Hin0 as [Hin0|Hin0].
+    + apply in_tagged in Hin0. destruct Hin0 as [-> [Hi He]].
+      exists K2. split; [exact HK2|]. split; [reflexivity|]. split; [lia|].
+      split; [exact (prefix_nth_error _ _ _ _ HKK2 He) | apply Hcho; exact Hch2].
+    + destruct (Hcom _ _ _ Hin0) as [K' (H1 & H2 & H3 & H4 & H5)].
+      exists K'. repeat split; auto.
+  - (* s_nc *)
+    intros n0 i e. upd_case n0 f; simpl.
+    + intros H1 H2. destruct (le_lt_dec i (length K)) as [Hi|Hi].
+      * exists (lastTerm K2). split; [exact Hlt|]. apply in_or_app. left. apply in_tagged.
+        split; [reflexivity|]. split; [lia|].
+        destruct (nth_error K (i - 1)) as [e'|] eqn:Ee; [|apply nth_error_None in Ee; lia].
+        pose proof (prefix_nth_error _ _ _ _ HKnl Ee) as He'. congruence.
+      * assert (Hi' : (1 <= i <= commit (st s f))%nat) by lia.
+        rewrite (Hcold i Hi') in H2. destruct (Hnc _ _ _ Hi' H2) as [tc [H3 H4]].
+        exists tc. split; [lia|]. apply in_or_app. right. exact H4.
+    + intros H1 H2. destruct (Hnc _ _ _ H1 H2) as [tc [H3 H4]]. exists tc. split; [exact H3|].
+      apply in_or_app. right. exact H4.
+  - (* s_cf *)
+    intros n0. upd_case n0 f; simpl; [|apply Hcf].
+    pose proof (Hcf f) as Hc1. revert Hcoldlen.
+    destruct (prefixb K (log (st s f))); intros Hcoldlen; lia.
+Qed.
+
 (* ---- all steps ---- *)
 
 Lemma send_msgc_ok s l pi k c :
@@ -868,6 +1051,8 @@ Proof.
   - (* flush *)
     apply (sinv_frame s); try exact Hs; unfold do_flush; simpl; try reflexivity; auto.
     intros n0. upd_case n0 n; simpl; snode_obl.
+  - (* install *)
+    eapply sinv_install; eassumption.
 Qed.
 
 Lemma reachable_all s : Reachable V s -> vinv V s /\ linv s /\ sinv s.
